@@ -255,6 +255,25 @@ Non-trivial = text with a character the normaliser changes, a multi-byte charact
         || stream_strategy(false),
         test_stream,
     );
+    rep.run_enum(
+        "token-stream-long-texts",
+        "deterministic long texts (50,000 characters: multi-byte, half-width characters the \
+normaliser rewrites, CR/LF every 997 characters) with wsconst \"\", \"DG\", \"O\"; same oracle",
+        false,
+        ["", "DG", "O"].into_iter().map(|ws| {
+            let pool = ['火', '星', 'ｱ', 'a', '1', '。', '𠀋', 'あ', 'ｶ', 'ﾞ', '-', '猫'];
+            let text: String = (0..50_000usize)
+                .map(|i| if i % 997 == 0 { '\n' } else if i % 997 == 996 { '\r' } else { pool[(i * 7 + i / 11) % pool.len()] })
+                .collect();
+            let mut spec = ModelSpec { char_window: 2, type_window: 2, bias: -3, ..ModelSpec::default() };
+            spec.char_ngrams.push(vcommon::mirror::NgramSpec { ngram: "火星".into(), weights: vec![5, -5, 7] });
+            spec.char_ngrams.push(vcommon::mirror::NgramSpec { ngram: "星".into(), weights: vec![1, 2, -3, 4] });
+            spec.type_ngrams.push(vcommon::mirror::NgramSpec { ngram: vec![5, 4], weights: vec![2, 9, -1] });
+            spec.dict.push(vcommon::mirror::WordSpec { word: "猫火".into(), weights: vec![6, -6, 6], comment: String::new() });
+            StreamCase { spec, texts: vec![text], wsconst: ws.to_string() }
+        }),
+        test_stream,
+    );
     // probe of the known finding: texts containing U+0000
     rep.run_prop(
         "token-stream-nul-probe",
